@@ -4,7 +4,7 @@
     [*_mis_y]: ids where the implementation differs from Y (row selected by the form, run by
     [OpDsl.denote]); [*_mis_g]: ids where the reference differs from G. *)
 From Coq Require Import ZArith List String Bool.
-From Verif Require Import Num.OpDsl Num.GoInt Num.Model Num.Proofs.
+From Verif Require Import Num.OpDsl Num.GoInt Num.Model.
 Import ListNotations.
 Open Scope Z_scope.
 
